@@ -4,6 +4,8 @@
 
 package replication
 
+import "github.com/jamf/regatta/storage/kv"
+
 // VerifWorker drives a single replication worker step by step for the verification harness
 // (compiled only with the "verif" build tag). The worker is built by the real factory, its
 // goroutines are never started: the harness owns the schedule.
@@ -50,3 +52,22 @@ func (v *VerifWorker) Recover() error { return v.w.recover() }
 
 // VerifReconcileTables runs one round of table set reconciliation against the leader.
 func (m *Manager) VerifReconcileTables() error { return m.reconcileTables() }
+
+// VerifStore is the metadata store the replication workers use for their queue statistics.
+type VerifStore interface {
+	GetAllValues(key string) ([]string, error)
+	Get(key string) (kv.Pair, error)
+	Set(key string, value string, ver uint64) (kv.Pair, error)
+}
+
+// VerifSetStore replaces the workers' metadata store (the harness runs workers without a NodeHost).
+func (m *Manager) VerifSetStore(s VerifStore) { m.factory.store = s }
+
+// Start launches the worker's real goroutines (lease, statistics and replication routines).
+func (v *VerifWorker) Start() { v.w.Start() }
+
+// Close stops the worker and returns its table.
+func (v *VerifWorker) Close() { v.w.Close() }
+
+// Leased reports whether the worker currently considers its table leased (it replicates only then).
+func (v *VerifWorker) Leased() bool { return v.w.leased.Load() }
